@@ -95,7 +95,7 @@ def compare_tree(spec_tree, real_tree, cols, keymap, what):
   return out
 
 
-def replay(beh, idx, full=True):
+def replay(beh, idx, full=True, repeat=True):
   d = beh['decl']
   decl = (d['a'], d['b'], d['w'], bool(d['shared']), d['ws'])
   uses = tuple((u['attr'], u['via']) for u in beh['uses'])
@@ -138,7 +138,7 @@ def replay(beh, idx, full=True):
   variables = real['ret']
   before = ds.snapshot(variables)
   first = None
-  for rep in range(2 if full else 1):      # the second apply hits the trace caches of the lifted methods
+  for rep in range(2 if (full or repeat) else 1):      # the second apply hits the trace caches of the lifted methods
     r = run_real(decl, uses, 'apply', variables, astreams, mut, idx + rep)
     what = 'apply' if rep == 0 else 'apply again (trace-cache hit)'
     for p, w in compare_phase(ap, r, uses, keymap, lifted, what):
@@ -157,6 +157,8 @@ def replay(beh, idx, full=True):
         first = r
       elif not np.array_equal(first['out'], r['out']):
         viol.append(('C05', key, 'two identical applies return different outputs (the second one hits the trace cache of the lifted method)'))
+        if not np.array_equal(first['out'][:, 3:], r['out'][:, 3:]):
+          viol.append(('C09', key, 'the same program with the same seeds drew different keys in two identical applies'))
   if lifted and full and first is not None:
     pu, pidx = ds.plain_equivalent(uses, False)
     plain = run_real(decl, pu, 'apply', variables, astreams, mut, idx)
@@ -194,15 +196,18 @@ def run(chk, prop):
   # exhaustive, focused: two sibling Leafs, each passed as an attribute into its own class-level nn.jit wrapper
   ja = tlc.require_ok(tlc.run('LinenSetup', 'LinenSetup_jattr.cfg', workers=1, timeout=3000), 'LinenSetup jit-attribute wrappers')
   chk.add_tlc(ja, 'LinenSetup jit-attribute wrappers (exhaustive, 3 uses)')
-  step = 1 if (thorough or full or prop == 'C09') else 4
+  # exhaustive, focused: a lazily bound grand-child used through plain / stream-subset remat / jit methods (3 uses)
+  sub = tlc.require_ok(tlc.run('LinenSetup', 'LinenSetup_subset.cfg', workers=1, timeout=3000), 'LinenSetup stream-subset lifts')
+  chk.add_tlc(sub, 'LinenSetup stream-subset lifts (exhaustive, 3 uses)')
+  step = 1 if thorough else (3 if prop in ('C05', 'C09') else 8)
   seen = set()
-  for idx, beh in enumerate(ja['exports'][::step] + sim['exports']):
+  for idx, beh in enumerate(ja['exports'][::step] + sub['exports'][::step] + sim['exports']):
     sig = json.dumps(beh, sort_keys=True)
     if sig in seen:
       continue
     seen.add(sig)
     try:
-      viol = replay(beh, idx, full)
+      viol = replay(beh, idx, full, repeat=(prop in ('C05', 'C09')))
     except Exception as e:      # a crash of the real API outside the guarded calls
       viol = [('C05', 'setup:crash', f'{type(e).__name__}: {str(e)[:200]}')]
     chk.count('setup:' + str(hash(sig)), nontrivial=len(beh['uses']) >= 2)
